@@ -219,7 +219,11 @@ def consolidate_failure_cases(schema_errors: List[SchemaError]):
             # assume that err.failure_cases is a scalar value
             scalar_check_failure_cases.append(
                 {
-                    "column": err.schema.name,
+                    "column": (
+                        err.column_name
+                        if err.column_name is not None
+                        else err.schema.name
+                    ),
                     "failure_case": err.failure_cases,
                     "index": None,
                     **err_metadata,
